@@ -15,6 +15,7 @@
 //	C13.abort   calls aborted by a panic / runtime.Goexit of the callback, followed by independent calls
 //	C13.repeat  more than 2^16 repetitions of the same cheap calls, alternately on two live slices
 //	C13.wrap32  (thorough only) more than 2^32 repetitions of one call; single calls with more than 2^32 callbacks
+//	C13.mega    enumerated results of 2^14 .. 2^23 pieces (uint8, int8, uint16, float32, int), every element compared: see mega_test.go
 //	C13.deep, C13.guard, C13.local, C13.gap, C13.sleep, C13.twins, C13.kept: see units2_test.go
 //
 // All units except C13.par (process-wide GOMAXPROCS), C13.deep (hundreds of MB per case) and C13.wrap32 (minutes per case) also run one case in eight as
